@@ -155,6 +155,8 @@ class IdentityDatabase(Database):
         Return the schema for the database.
         """
         schema = """
+                 BEGIN;
+
                  CREATE TABLE IF NOT EXISTS Tokens(
                  public_key BLOB,
                  previous_token_hash BLOB,
@@ -186,6 +188,8 @@ class IdentityDatabase(Database):
                  CREATE TABLE IF NOT EXISTS option(key TEXT PRIMARY KEY, value BLOB);
                  DELETE FROM option WHERE key = 'database_version';
                  INSERT INTO option(key, value) VALUES('database_version', '%s');
+
+                 COMMIT;
                  """
         return schema % str(self.LATEST_DB_VERSION)
 
